@@ -143,6 +143,8 @@ class AioRun:
         self.record_sites = False
         self.busy = None
         self.first_issue: dict = {}
+        self.stuck_tasks: list = []
+        self.epilogue_stuck = False
 
     # ------------------------------------------------------------------ gate
     async def gate(self, kind, pipe, info):
@@ -430,14 +432,33 @@ class AioRun:
             for c in self.callers:
                 if c.task is not None and not c.task.done():
                     c.task.cancel()
+            # give cancelled callers a bounded number of loop iterations to unwind; a task that does not finish (it waits, shielded,
+            # for something nobody will ever provide) is abandoned and reported, never waited for with the real clock
+            for _ in range(2000):
+                if all(c.task is None or c.task.done() for c in self.callers):
+                    break
+                await asyncio.sleep(0)
+            self.stuck_tasks = [c.id for c in self.callers if c.task is not None and not c.task.done()]
             for c in self.callers:
-                if c.task is not None:
-                    try:
-                        await asyncio.wait_for(asyncio.shield(c.task), timeout=None)
-                    except BaseException:
-                        pass
+                if c.task is not None and c.task.done() and not c.task.cancelled():
+                    c.task.exception()  # mark as retrieved
             if self.epilogue is not None:
-                await self.epilogue(self)
+                # the epilogue runs ungated; if it blocks (e.g. on a lock a stuck task still holds) it is abandoned after a bounded number of
+                # loop iterations instead of hanging the harness on the real clock
+                et = self.loop.create_task(self.epilogue(self))
+                for _ in range(50000):
+                    if et.done():
+                        break
+                    await asyncio.sleep(0)
+                if not et.done():
+                    self.epilogue_stuck = True
+                    et.cancel()
+                    for _ in range(200):
+                        if et.done():
+                            break
+                        await asyncio.sleep(0)
+                elif et.exception() is not None:
+                    raise et.exception()
         finally:
             self._remove_shield_probe()
 
@@ -482,7 +503,15 @@ class AioRun:
                 for t in pending:
                     t.cancel()
                 if pending:
-                    loop.run_until_complete(asyncio.gather(*pending, return_exceptions=True))
+                    async def _drain():
+                        for _ in range(500):
+                            if all(t.done() for t in pending):
+                                break
+                            await asyncio.sleep(0)
+                    loop.run_until_complete(_drain())
+                    for t in pending:
+                        if not t.done():
+                            t._log_destroy_pending = False
             except BaseException:
                 pass
             loop.close()
